@@ -355,6 +355,83 @@ def cmd_report():
             print(f"{m['id']:28s} {m['file']}:{m['line']:<5d} {m['op']:11s} {m['old']!r:.40} -> {m['new']!r:.40}")
 
 
+# ---- triage of the survivors (why a mutant that no check notices is not a property violation).
+# Keyed by (file, source text of the mutated segment or a part of its line); anything not matched
+# is listed as UNEXPLAINED and needs a look.
+TRIAGE = [
+    ("pool.py", "not self._locked", "lock(): the condition only guards a log message (logging is not modelled)"),
+    ("pool.py", "self._locked", "unlock(): the condition only guards a log message"),
+    ("pool.py", "iscoroutine(awaitable)", "cancelled-before-start path: closing the never-awaited coroutine only avoids a RuntimeWarning"),
+    ("pool.py", "awaitable.close()", "same: only a 'never awaited' RuntimeWarning differs"),
+    ("pool.py", "task_id, self", "argument order of an exception's *message* (TaskNotFound); classes are compared, message texts are not"),
+    ("pool.py", "stacklevel", "stacklevel of the Python < 3.9 warning"),
+    ("pool.py", "3", "stacklevel of the Python < 3.9 warning"),
+    ("pool.py", "not return_exceptions", "gather_and_close: re-raising a *spawner's* exception - spawners never fail inside the modelled domain (theorem C12: spawners never fail; C04: never end with an exception), so the branch is dead there"),
+    ("pool.py", "isinstance(result, Exception)", "same dead branch (a spawner's result is never an exception in the domain)"),
+    ("pool.py", "raise result", "same dead branch"),
+    ("pool.py", "break", "stop(): `continue` instead of `break` only keeps iterating without appending (i >= num stays true): equivalent"),
+    ("internals/helpers.py", "0", "default of star_function(arg_stars=0): every caller passes it explicitly"),
+    ("internals/helpers.py", "1", "get_first_doc_line: split(maxsplit=2)[0] equals split(maxsplit=1)[0]: equivalent"),
+    ("control/parser.py", "terminal_width is not None", "ControlParser without a terminal width: the session always passes the client's width"),
+    ("control/parser.py", "0", "default status of the overridden exit(): unused"),
+    ("control/parser.py", "isinstance(builtin, type)", "annotation text naming a builtin that is not a type (e.g. 'print'): not an annotation"),
+    ("control/client.py", "print()", "CLI: newline after Ctrl+C at the prompt (terminal I/O is not modelled)"),
+    ("control/client.py", "or", "CLI: `reader is None or writer is None` - both are None together when the connection fails: equivalent"),
+]
+
+
+def cmd_md():
+    allm = json.load(open(os.path.join(OUT, "all.json")))
+    suite = json.load(open(os.path.join(OUT, "suite.json")))
+    chk = json.load(open(os.path.join(OUT, "check.json")))
+    import collections
+    per = collections.defaultdict(collections.Counter)
+    surv = []
+    for m in allm:
+        st = suite.get(m["id"], "?")
+        if st == "survived":
+            c = chk.get(m["id"])
+            st = "unchecked" if c is None else ("caught" if c["caught"] else "survivor")
+            if st == "survivor":
+                surv.append(m)
+        per[m["file"]][st] += 1
+    lines = ["# Systematic mutation audit (`tools/mutate.py`)", "",
+             "Every single-token mutant of a fixed operator set (comparison / boolean / arithmetic swaps, "
+             "constants +-1, condition forced true / false, deletion of call statements, attribute assignments "
+             "and `raise`, `return None`, `break`<->`continue`, swap of two positional arguments) on the eight "
+             "modelled source files; logging calls, annotations, docstrings and `TYPE_CHECKING` / Python < 3.9 "
+             "blocks are not mutated. Each mutant is applied to a copy of the committed tree; the pinned suite "
+             "is run on it; the checks of the file's properties (quick tier, first alarm wins) are run on the "
+             "suite's survivors through `VERIF_REPO`. This is a measurement, not a check.", "",
+             "| file | mutants | killed by the pinned suite | caught by a check | survive both |", "|---|---|---|---|---|"]
+    tot = collections.Counter()
+    for f, c in per.items():
+        n = sum(c.values())
+        lines.append(f"| {f} | {n} | {c['killed'] + c['syntax']} | {c['caught']} | {c['survivor']} |")
+        tot.update(c)
+    n = sum(tot.values())
+    lines.append(f"| **total** | {n} | {tot['killed'] + tot['syntax']} | {tot['caught']} | {tot['survivor']} |")
+    lines += ["", "## Mutants that pass the suite and are caught", "",
+              "| mutant | change | first check to report it |", "|---|---|---|"]
+    for m in allm:
+        c = chk.get(m["id"])
+        if suite.get(m["id"]) == "survived" and c and c["caught"]:
+            lines.append(f"| {m['file']}:{m['line']} | `{m['old'][:50]}` -> `{m['new'][:40]}` ({m['op']}) | {c['caught'][0]} |")
+    lines += ["", "## Survivors of suite and checks, with the reason each is not a property violation", "",
+              "| mutant | change | why no check can (or should) see it |", "|---|---|---|"]
+    src = {}
+    for m in surv:
+        if m["file"] not in src:
+            src[m["file"]] = open(os.path.join(REPO, PKG, m["file"])).read().split("\n")
+        line = src[m["file"]][m["line"] - 1]
+        why = next((w for f, key, w in TRIAGE if f == m["file"] and (key == m["old"] or (key in line and key in ("stacklevel",)))), None)
+        if why is None:
+            why = next((w for f, key, w in TRIAGE if f == m["file"] and key in m["old"]), "**UNEXPLAINED**")
+        lines.append(f"| {m['file']}:{m['line']} | `{m['old'][:50]}` -> `{m['new'][:40]}` ({m['op']}) | {why} |")
+    open(os.path.join(VERIF, "seeded", "MUTATION.md"), "w").write("\n".join(lines) + "\n")
+    print("\n".join(lines[-(len(surv) + 3):]))
+
+
 if __name__ == "__main__":
     a = sys.argv[1:]
     jobs = 8
@@ -370,3 +447,5 @@ if __name__ == "__main__":
         cmd_check(jobs, a[1:])
     elif a[0] == "report":
         cmd_report()
+    elif a[0] == "md":
+        cmd_md()
